@@ -9,5 +9,7 @@ CONSTANTS
   Recheck = TRUE
   Post = "rearm"
   Record = "always"
+  Breaks = FALSE
+  Blind = FALSE
   Export = FALSE
 INVARIANTS NoHazard
